@@ -76,9 +76,9 @@ def build_forms(prog):
 
 # --------------------------------------------------------------------------
 # enumeration
-def placements(n):
+def placements(n, forms=('a', 'b')):
     """line 1 is a required line of 'a'; others anywhere"""
-    opts = [('a', True), ('a', False), ('b', True), ('b', False)]
+    opts = [(f, r) for f in forms for r in (True, False)]
     for rest in itertools.product(opts, repeat=n - 1):
         yield [('a', True)] + list(rest)
 
@@ -99,7 +99,7 @@ def ops_for(place, k, rich=True):
     ops += [('G', ('RI', 'q')), ('G', ('NI',))]
     ops += [('RI', f'{other}.p'), ('RI', 'm:1.p'), ('RL', 'm:0.p')]
     if rich:
-        ops += [('RL', 'zz.1'), ('RI', 'zz.p'), ('G', ('RL', 'zz.1')), ('RL', f'{own}.99')]
+        ops += [('RL', 'zz.1'), ('RI', 'zz.p'), ('G', ('RL', 'zz.1')), ('RL', f'{own}.99'), ('RI', 'nope')]
     return ops
 
 
@@ -140,15 +140,16 @@ def reachable(prog):
     return dem
 
 
-def programs(n, kmax_per_line, total_ops=None, rich=True):
+def programs(n, kmax_per_line, total_ops=None, rich=True, forms=('a', 'b')):
     """all programs with n lines; kmax_per_line: int; total_ops caps sum of body lengths.
     Programs with a syntactically unreachable line are skipped (they behave as a smaller program)."""
-    for place in placements(n):
+    for place in placements(n, forms):
         alph = [ops_for(place, k, rich) for k in range(n)]
-        blists = [list(bodies(alph[k], kmax_per_line)) for k in range(n)]
-        for combo in itertools.product(*blists):
-            if total_ops is not None and sum(len(b) for b in combo) > total_ops:
-                continue
+        bylen = [{L: [list(b) for b in itertools.product(alph[k], repeat=L)] for L in range(kmax_per_line + 1)}
+                 for k in range(n)]
+        lens = [lv for lv in itertools.product(range(kmax_per_line + 1), repeat=n)
+                if total_ops is None or sum(lv) <= total_ops]
+        for combo in (c for lv in lens for c in itertools.product(*[bylen[k][lv[k]] for k in range(n)])):
             prog = [dict(form=place[k][0], name=str(k + 1), req=place[k][1], body=combo[k]) for k in range(n)]
             if len(reachable(prog)) < n:
                 continue
@@ -172,6 +173,8 @@ def mentioned_inputs(prog):
         for op in l['body']:
             visit(op, l['form'])
     out.pop('zz.p', None)
+    for k in [k for k in out if k.endswith('.nope')]:
+        out.pop(k)
     return out
 
 
